@@ -62,7 +62,7 @@ def P(q):
     return '%s:%s' % (PREFIX.get(q[0], '{%s}' % q[0]), q[1])
 
 
-STYLE_NAME = Q('style:name'); FAMILY = Q('style:family'); MARK = Q('c11:m'); SID = Q('c11:sid')
+STYLE_NAME = Q('style:name'); FAMILY = Q('style:family'); MARK = Q('c11:m'); SID = Q('c11:sid'); MARK_CHILD = Q('c11:mk')
 
 # ------------------------------------------------------------------ kinds of automatic style
 FAMILIES = ['paragraph', 'text', 'table', 'table-column', 'table-row', 'table-cell', 'graphic', 'presentation',
@@ -257,8 +257,17 @@ def site(sid, attr, host, name):
     return {'sid': sid, 'attr': attr, 'host': host, 'name': name}
 
 
-def sdef(kind, name, marker, refs=()):
-    return {'kind': kind, 'name': name, 'm': marker, 'refs': list(refs)}
+def sdef(kind, name, marker, refs=(), mm='attr'):
+    """mm = how the definition can be told from another one of the same name:
+    'attr' marker attribute and marker child, 'attronly' attribute and no child at all, 'child' the start tag carries
+    nothing but style:name / style:family and the marker sits on a property child, 'none' no attribute and no
+    child (at most one such definition per package: it reads as the marker NOCHILD)"""
+    return {'kind': kind, 'name': name, 'm': marker, 'refs': list(refs), 'mm': mm}
+
+
+# (content.xml definition, styles.xml definition): how the two colliding definitions differ
+MARKER_MODES = [('attr', 'attr'), ('child', 'child'), ('none', 'child'), ('child', 'none'), ('attronly', 'attronly'),
+                ('attronly', 'child')]
 
 
 def empty_spec():
@@ -327,16 +336,20 @@ def def_xml(d):
     a = ' style:name="%s"' % esc(d['name'])
     if fam:
         a += ' style:family="%s"' % fam
-    a += ' c11:m="%s"' % d['m']
+    mm = d.get('mm', 'attr')
+    if mm in ('attr', 'attronly'):
+        a += ' c11:m="%s"' % d['m']
     if own:
         a += ' c11:sid="%s"' % own[0]['sid']
         a += ''.join(' %s="%s"' % (r['attr'], esc(r['name'])) for r in own)
-    if fam:
+    if mm not in ('attr', 'child'):
+        inner = ''
+    elif fam:
         inner = '<%s c11:mk="%s"/>' % (PROPS_CHILD[fam], d['m'])
     elif cls == 'data':
-        inner = '<number:text>%s</number:text>' % d['m']
+        inner = '<number:text c11:mk="%s">%s</number:text>' % (d['m'], d['m'])
     elif cls == 'list':
-        inner = ''
+        inner = '<text:list-level-style-bullet text:level="10" text:bullet-char="-" c11:mk="%s"/>' % d['m']
     else:
         inner = '<style:page-layout-properties c11:mk="%s"/>' % d['m']
     for r in kids:
@@ -479,6 +492,18 @@ def view_of_zip(data):
     return view_of_parts(z.read('content.xml'), z.read('styles.xml'))
 
 
+def marker_of(t):
+    """which definition this is: the marker attribute, else the marker on a (property) child, else NOCHILD"""
+    if t is None:
+        return None
+    if MARK in t[1]:
+        return t[1][MARK]
+    for e in walk(t):
+        if MARK_CHILD in e[1]:
+            return e[1][MARK_CHILD]
+    return 'NOCHILD'
+
+
 def def_class(t):
     pn = P(t[0])
     if pn == 'style:style':
@@ -573,7 +598,7 @@ def oracle(spec, T, loader):
         if b['target'] is None:
             continue
         stats['resolved_before'] += 1
-        m = b['target'][1].get(MARK)
+        m = marker_of(b['target'])
         region = key[0]
         placement = region
         if region in ('cauto', 'sauto'):
@@ -600,7 +625,7 @@ def oracle(spec, T, loader):
                 else:
                     stats['owner_not_written'] += 1     # an unused automatic style is not written: its references went with it
                 continue
-            m2 = r['target'][1].get(MARK) if r['target'] is not None else None
+            m2 = marker_of(r['target'])
             if m2 == m:
                 stats['preserved_saved' if where == 'saved package' else 'preserved_mem'] += 1
             else:
@@ -650,6 +675,7 @@ def direct_cells(H):
         for attr, hosts in H[region].items():
             for host in hosts:
                 pairs.setdefault((attr, host), set()).add(region)
+    nmode = [0]
     for (attr, host) in sorted(pairs):
         cls = target_class(attr, host)
         if cls is None:
@@ -663,20 +689,27 @@ def direct_cells(H):
                     continue
                 if placement in ('body', 'both') and 'body' not in regions:
                     continue
-                name = COLLIDING_NAME[kind]
-                spec = empty_spec()
-                spec['cauto'].append(sdef(kind, name, 'A'))
-                spec['sauto'].append(sdef(kind, name, 'B'))
-                controls(spec, attr, host, kind, regions)
-                if placement in ('body', 'both'):
-                    spec['body'].append(site('b1', attr, host, name))
-                if placement in ('master', 'both'):
-                    spec['master'].append(site('m1', attr, host, name))
-                yield spec, {'block': 'direct', 'kind': kind, 'attr': attr, 'host': host, 'placement': placement}
+                # how the two definitions differ (marker attribute / children only / one of them childless):
+                # every way for text:style-name (the cells that hold), one way per cell, cycling, elsewhere
+                nmode[0] += 1
+                modes = MARKER_MODES if attr == 'text:style-name' else [MARKER_MODES[nmode[0] % len(MARKER_MODES)]]
+                for mc, ms in modes:
+                    name = COLLIDING_NAME[kind]
+                    spec = empty_spec()
+                    spec['cauto'].append(sdef(kind, name, 'A', mm=mc))
+                    spec['sauto'].append(sdef(kind, name, 'B', mm=ms))
+                    controls(spec, attr, host, kind, regions)
+                    if placement in ('body', 'both'):
+                        spec['body'].append(site('b1', attr, host, name))
+                    if placement in ('master', 'both'):
+                        spec['master'].append(site('m1', attr, host, name))
+                    yield spec, {'block': 'direct', 'kind': kind, 'attr': attr, 'host': host, 'placement': placement,
+                                 'differ': '%s/%s' % (mc, ms)}
 
 
 def internal_cells():
     """a reference inside an automatic style (which is itself used), before / after the colliding definition"""
+    nint = [0]
     for attr, host, okind in STYLE_INTERNAL:
         ocls = KINDS[okind][2]
         cls = target_class(attr, host, ocls)
@@ -687,7 +720,9 @@ def internal_cells():
             for part in ('sauto', 'cauto'):
                 for order in ('before', 'after'):
                     spec = empty_spec()
-                    a, b = sdef(kind, name, 'A'), sdef(kind, name, 'B')
+                    nint[0] += 1
+                    mc, ms = MARKER_MODES[nint[0] % len(MARKER_MODES)]
+                    a, b = sdef(kind, name, 'A', mm=mc), sdef(kind, name, 'B', mm=ms)
                     owner = sdef(okind, 'Own1', 'O', [site('r1', attr, host, name)])
                     spec['cauto'].append(a); spec['sauto'].append(b)
                     lst = spec[part]
@@ -698,10 +733,19 @@ def internal_cells():
                     controls(spec, None, None, None, ())
                     oattr, ohost = OWNER_REF[ocls]
                     spec['body' if part == 'cauto' else 'master'].append(site('o1', oattr, ohost, 'Own1'))
-                    yield spec, {'block': 'internal', 'kind': kind, 'attr': attr, 'host': host, 'placement': '%s-%s' % (part, order)}
+                    yield spec, {'block': 'internal', 'kind': kind, 'attr': attr, 'host': host, 'placement': '%s-%s' % (part, order),
+                                 'differ': '%s/%s' % (mc, ms)}
 
 
 def special_cells():
+    # fixed cases for the ways two definitions of one name can differ: P1 and T1 in both parts, referenced from body and header
+    for mc, ms in MARKER_MODES:
+        s = empty_spec()
+        s['cauto'] += [sdef('paragraph', 'P1', 'A', mm=mc), sdef('text', 'T1', 'TA')]
+        s['sauto'] += [sdef('paragraph', 'P1', 'B', mm=ms), sdef('text', 'T1', 'TB', mm='child')]
+        s['body'] += [site('b1', 'text:style-name', 'text:p', 'P1'), site('b2', 'text:style-name', 'text:span', 'T1')]
+        s['master'] += [site('m1', 'text:style-name', 'text:p', 'P1'), site('m2', 'text:style-name', 'text:span', 'T1')]
+        yield s, {'block': 'special', 'what': 'P1/T1 in both parts, definitions differ by %s/%s' % (mc, ms)}
     # 'M'+name is already taken in content.xml
     s = empty_spec()
     s['cauto'] += [sdef('paragraph', 'P1', 'A'), sdef('paragraph', 'MP1', 'C')]
@@ -786,6 +830,7 @@ def gen_random(rng, DP):
         sid[0] += 1
         return 'r%d' % sid[0]
     defined = {'cauto': {}, 'sauto': {}, 'common': {}}      # class -> names
+    used_none = [False]
     ncoll = 0
     for kind in kinds:
         cls = KINDS[kind][2]
@@ -796,7 +841,12 @@ def gen_random(rng, DP):
             for part in (('cauto',) if where == 'content' else ('sauto',) if where == 'styles' else ('cauto', 'sauto')):
                 if name in [n for c in defined[part].values() for n in c]:
                     continue
-                spec[part].append(sdef(kind, name, marker()))
+                mm = rng.choice(['attr', 'attr', 'child', 'child', 'attronly', 'none'])
+                if mm == 'none':
+                    if used_none[0]:
+                        mm = 'child'
+                    used_none[0] = True
+                spec[part].append(sdef(kind, name, marker(), mm=mm))
                 defined[part].setdefault(cls, []).append(name)
             if where == 'both':
                 ncoll += 1
@@ -861,7 +911,7 @@ def flatten(view, T, marker_index):
         t = [str(len(pool))]; keys = []
         for d in pool:
             rs = refs_of(d, d, region)
-            m = d[1].get(MARK)
+            m = marker_of(d)
             if m not in marker_index:
                 marker_index[m] = len(marker_index)
             t += ['1' if P(d[0]) == 'style:style' else '0', str(CLASS_CODE.get(def_class(d), 99)),
@@ -892,7 +942,7 @@ def observe(trip, T, keys, marker_index, before, mem, after):
         return out
 
     def mi(t):
-        return marker_index.get(t[1].get(MARK), 'x%s' % t[1].get(MARK))
+        return marker_index.get(marker_of(t), 'x%s' % marker_of(t))
     mv = view_of_doc(doc)
     fix = sorted('%s>%s' % (enc_str(u'%s' % (a,)), enc_str(u'%s' % (b,))) for a, b in doc._styles_ooo_fix.items())
     L = ['%s=%s(%s)' % (mi(d), enc_str(d[1].get(STYLE_NAME, u'')), ','.join(names_of(d))) for d in mv.common + mv.cauto]
@@ -934,6 +984,8 @@ def run_case(chk, spec, info, T, loader, lines, pending):
     chk.count('block_' + info['block'])
     if 'placement' in info:
         chk.count('placement_' + info['placement'])
+    if 'differ' in info:
+        chk.count('definitions_differ_' + info['differ'])
     for k, v in sorted(stats.items()):
         chk.count(k, v)
     if not fails:
